@@ -137,6 +137,15 @@ type Config struct {
 	// StreamOwnsSlice: the Stream treats the slice it is handed as its own, as a callee may: it appends to it (fills
 	// the spare capacity, if there is any, with a foreign message) and clears the elements when it is done.
 	StreamOwnsSlice bool
+	// ReenterPushLow: from inside its first outermost callback that happens while other events are still undelivered
+	// (buffered, or waiting in the batch the call is walking) the Stream pushes a COMPLETE event with a fresh sequence
+	// number below everything else: its first record is pushed while higher-numbered events are undelivered, so it
+	// is due before them (one goroutine: C02 applies as stated).
+	ReenterPushLow bool
+	// MutateAfterPush: as soon as PushMessage has returned the caller overwrites the Sequence field of the struct it
+	// pushed with this value XORed in (the library was handed the number at push time; what the caller does to its
+	// struct afterwards changes neither grouping nor order).  The callback restores the field before the monitors look.
+	MutateAfterPush uint32
 }
 
 const farTimeout = int64(1) << 40
@@ -180,6 +189,12 @@ func (c Config) String() string {
 	}
 	if c.StreamOwnsSlice {
 		re += " stream-appends-to-and-clears-its-slice"
+	}
+	if c.ReenterPushLow {
+		re += " stream-pushes-a-lower-complete-event-from-callback"
+	}
+	if c.MutateAfterPush != 0 {
+		re += fmt.Sprintf(" caller-overwrites-Sequence-after-push(xor %d)", c.MutateAfterPush)
 	}
 	if c.ReenterTickMaintain > 0 {
 		re += fmt.Sprintf(" slow-stream(%d ticks)-then-Maintain", c.ReenterTickMaintain)
@@ -228,6 +243,7 @@ type Instance struct {
 	rawBuf                 []byte
 	closeFromCB, cbChecked bool
 	free                   []*auparse.AuditMessage // Recycle: delivered structs the caller may fill in again
+	mutated                map[*auparse.AuditMessage]uint32 // MutateAfterPush: scribbled structs -> the number they were pushed with
 	reentered              bool
 	nesting                int
 
@@ -324,6 +340,14 @@ func (in *Instance) ReassemblyComplete(msgs []*auparse.AuditMessage) {
 	if len(msgs) == 0 {
 		in.fail("M01", "empty-callback", "ReassemblyComplete with no messages")
 		return
+	}
+	if in.cfg.MutateAfterPush != 0 {
+		for _, m := range msgs {
+			if o, ok := in.mutated[m]; ok {
+				m.Sequence = o
+				delete(in.mutated, m)
+			}
+		}
 	}
 	s := msgs[0].Sequence
 	for _, m := range msgs {
@@ -450,6 +474,15 @@ func (in *Instance) ReassemblyComplete(msgs []*auparse.AuditMessage) {
 			in.closeFromCB = true
 		}
 		_ = cbBefore
+	}
+	if in.cfg.ReenterPushLow && in.nesting == 0 && in.closed == 0 && !in.callIsClose && !in.reentered && len(in.pending) > 0 {
+		in.reentered = true
+		low := in.cfg.Base + in.cfg.Offsets[0] - 1
+		rec := &msgRec{typ: 1327, step: in.step, ptr: &auparse.AuditMessage{RecordType: 1327, Sequence: low}}
+		in.pending[low] = &shadowEvent{seq: low, created: in.clock.T, bornAt: in.delivN, complete: true, msgs: []*msgRec{rec}}
+		in.nesting++
+		in.r.PushMessage(rec.ptr)
+		in.nesting--
 	}
 	if in.cfg.Reenter && in.nesting == 0 && in.closed == 0 && !in.callIsClose {
 		// every outermost callback re-enters (a deterministic function of the state)
@@ -708,6 +741,16 @@ func (in *Instance) applyOp(op Op) {
 				rec.ptr.Timestamp = time.Unix(1700000000, 123000000).UTC()
 			}
 			in.r.PushMessage(rec.ptr)
+			if x := in.cfg.MutateAfterPush; x != 0 && k.Type != typeEOE {
+				if ev := in.pending[op.Seq]; ev != nil && len(ev.msgs) > 0 && ev.msgs[len(ev.msgs)-1] == rec {
+					// still undelivered: the struct is scribbled on (restored in the callback, where identity is by pointer)
+					if in.mutated == nil {
+						in.mutated = map[*auparse.AuditMessage]uint32{}
+					}
+					in.mutated[rec.ptr] = rec.ptr.Sequence
+					rec.ptr.Sequence ^= x
+				}
+			}
 		}
 		in.endCall(op)
 		in.afterPush(op)
